@@ -720,16 +720,22 @@ impl Vm {
         if expr.is_vector() {
             let vector = expr.as_vector().unwrap();
 
-            let new_vector = self.heap.put(VCell::vector(vec![]));
-            lambda.emit(OpCode::MovImmediate);
-            lambda.emit(new_vector);
-            lambda.emit(VCell::Acc);
-
+            // Every evaluation of the template must yield a fresh vector: push the
+            // elements and apply the vector primitive to them at run time.
             for it in vector {
-                lambda.emit(OpCode::PushAcc);
                 self.compile_quasiquote(lambda, it, depth)?;
-                lambda.emit(OpCode::VPushAcc);
+                lambda.emit(OpCode::PushAcc);
             }
+            let make_vector = self.heap.put(VCell::builtin(
+                "vector",
+                crate::vm::builtin::vector::vector,
+            ));
+            lambda.emit(OpCode::PushImmediate);
+            lambda.emit(VCell::ArgumentCount(vector.len()));
+            lambda.emit(OpCode::MovImmediate);
+            lambda.emit(make_vector);
+            lambda.emit(VCell::Acc);
+            lambda.emit(OpCode::CallAcc);
 
             return Ok(());
         }
